@@ -900,9 +900,12 @@ func c20Race(c *lab.Ctx) {
 	rounds := c.Pick(4, 12)
 	sizes := []int{24, 60, 8, 40}
 	if c.Thorough() {
-		sizes = []int{24, 60, 8, 100, 40, 16, 8, 150}
+		sizes = []int{24, 60, 8, 100, 40, 16, 8, 130}
 	}
 	for round := 0; round < rounds; round++ {
+		if round%c.NBatch != c.Batch {
+			continue
+		}
 		big := sizes[round%len(sizes)]
 		withWriter := round%4 == 2
 		cs := &c20Case{Idx: round}
@@ -1025,7 +1028,7 @@ func c20Race(c *lab.Ctx) {
 				}
 			}()
 		}
-		nDumps := c.Pick(30, 150)
+		nDumps := c.Pick(30, 100)
 		classes := map[string]int{}
 		for j := 0; j < nDumps; j++ {
 			before := c.Violations()
